@@ -31,6 +31,7 @@ EmptyDict     == <<>>
    refuses to compare a record literal with the empty function <<>> *)
 D1(k, v)              == [x \in {k} |-> v]
 D2(k1, v1, k2, v2)    == [x \in {k1, k2} |-> IF x = k1 THEN v1 ELSE v2]
+D3(k1, v1, k2, v2, k3, v3) == [x \in {k1, k2, k3} |-> IF x = k1 THEN v1 ELSE IF x = k2 THEN v2 ELSE v3]
 (* d[new] = d[old]; del d[old]   (AppMutator._rename_dict_key) *)
 RenKey(d, old, new) ==
     IF old = new THEN Drop(d, old)
@@ -50,6 +51,7 @@ DbType(ftype, attrs) ==
       [] ftype = "Int"  -> <<"integer">>
       [] ftype = "Auto" -> <<"integer">>
       [] ftype = "FK"   -> <<"integer">>
+      [] ftype = "O2O"  -> <<"integer">>
       [] ftype = "Bool" -> <<"bool">>
       [] ftype = "Text" -> <<"text">>
       [] ftype = "M2M"  -> <<"none">>
@@ -57,7 +59,7 @@ DbType(ftype, attrs) ==
 
 (* FieldSignature._ATTRIBUTE_DEFAULTS *)
 AttrDefault(ftype, a) ==
-    CASE a = "db_index"    -> (ftype = "FK")
+    CASE a = "db_index"    -> (ftype \in {"FK", "O2O"})
       [] a = "null"        -> FALSE
       [] a = "unique"      -> FALSE
       [] a = "primary_key" -> FALSE
